@@ -83,7 +83,11 @@ class Harness:
             progs.append(Program(I, [lambda rs: Then(w.f_add_version(b_srv, chain[-1][1], clone_val(bpl)),
                                                      lambda r: (accepted_b.append(r), r)[1])]))
         elif other == 'add_snapshot':
-            k = c.choose(n, 'snapshot-version')
+            # a snapshot is uploaded right after its version was accepted: the request names a version at or after the
+            # newest snapshot already stored (a request delayed past the retention age, naming a version whose
+            # successors have meanwhile grown old, been covered by a newer snapshot and been deleted, is outside)
+            lo = max([k0 for _, _, k0 in snaps], default=0)
+            k = lo + c.choose(n - lo, 'snapshot-version')
             spl = w.payload(1)
             progs.append(Program(I, [lambda rs: w.f_add_snapshot(b_srv, chain[k][1], clone_val(spl))]))
             snaps.append((chain[k][1], spl, k))
@@ -204,6 +208,7 @@ def configs(tier):
 
 ASSUMPTIONS = [
     'interleaving granularity = one Service request (list page included); compare_and_swap atomic (Service contract)',
+    'a concurrent add_snapshot names a version at or after the newest snapshot already stored (snapshot uploads follow their version immediately; one delayed past the retention age is outside the bound)',
     'object creation times are arbitrary instants not later than now; SystemTime::now is one symbolic instant >= 360 days after the epoch',
     'ring primitives idealised; version ids fresh, distinct, symbolic order (cleanup sorts and binary-searches them)',
     'replay: store content, ages, schedule and stop point are run on the compiled CloudServer (cleanup through the hook) over the gated hook store; the run is repeated until the randomly minted ids have the relative order of the model; confirmed when results, request log and store equal the prediction',
